@@ -366,6 +366,10 @@ class FakeSock(object):
       k = max(1, min(script.pop(0), len(data)))
       self.sendall(bytes(data[:k]))
       return k
+    if getattr(self.net, 'max_send', None):
+      k = min(self.net.max_send, len(data))       # max_send: send() accepts at most that many bytes per call (sendall loops)
+      self.sendall(bytes(data[:k]))
+      return k
     self.sendall(data)
     return len(data)
 
@@ -388,7 +392,7 @@ class FakeSock(object):
         c.mark_fault()
         raise _err(errno.ECONNRESET, 'Connection reset by peer')
       if c.rx:
-        k = min(n, len(c.rx))
+        k = min(n, len(c.rx), getattr(self.net, 'max_recv', None) or n)      # max_recv: the kernel hands out at most that many bytes per call
         out = bytes(c.rx[:k])
         del c.rx[:k]
         return out
